@@ -181,6 +181,7 @@ type Chain struct {
 	initialVals  int
 	divergences  []string
 	Absent       map[common.ValidatorIndex]bool
+	SlotSteps    []HonestSlots
 }
 
 // HonestStep remembers one honest `trans` for the corruption and cancellation streams.
@@ -267,6 +268,7 @@ func (c *Chain) AdvanceSlots(target common.Slot) error {
 	}
 	id := c.Rec.State(res.Post)
 	c.Rec.Line("slots %s %d %s", c.StID, target, id)
+	c.SlotSteps = append(c.SlotSteps, HonestSlots{PreID: c.StID, Target: target})
 	c.Stats.Inc("slots_records")
 	c.afterStep(res.Post, res.Epc, id, preEpoch, preFork, false)
 	return nil
